@@ -54,6 +54,14 @@ def call_bias(case, perm=None):
     if perm is not None:
         w = None if w is None else w[p]
         feat = None if feat is None else feat[p]
+    if case.get("prior_feature") is not None and perm is None:
+        # an earlier call in the same process on ANOTHER feature of the same dtype, length, minimum and maximum (nothing may be
+        # remembered from it)
+        try:
+            compute_bias(y, P, feature=feature_series({**case, "feature": case["prior_feature"]}), weights=w, functional=case["f"],
+                         level=case["level"], n_bins=case["n_bins"], bin_method=case["method"])
+        except Exception:
+            pass
     try:
         df = compute_bias(y, P, feature=feat, weights=w, functional=case["f"], level=case["level"], n_bins=case["n_bins"], bin_method=case["method"])
     except Exception as e:
@@ -135,6 +143,15 @@ class C09(Prop):
                 c.update(fkind="string", kind=dtype, feature=vals, enum=enum)
             if c["w"] is not None and c["fkind"] != "none" and rng.random() < 0.3:
                 c["w"] = tc.zero_some_weights(rng, c["feature"], c["w"])  # exposure 0 on some rows; every group keeps weight
+            if c["fkind"] == "numeric" and rng.random() < 0.3:
+                fin = [v for v in c["feature"] if isinstance(v, (int, float)) and not isinstance(v, bool) and math.isfinite(v)]
+                if len(set(fin)) >= 3:
+                    lo, hi = min(fin), max(fin)
+                    keep = {c["feature"].index(lo), c["feature"].index(hi)}
+                    integral = all(float(v).is_integer() for v in fin)
+                    c["prior_feature"] = [v if (i in keep or not (isinstance(v, (int, float)) and not isinstance(v, bool) and math.isfinite(v)))
+                                          else (rng.randint(int(lo), int(hi)) if integral else lo + (hi - lo) * rng.randint(0, 16) / 16)
+                                          for i, v in enumerate(c["feature"])]
             p = list(range(n))
             rng.shuffle(p)
             c["perm"] = p
@@ -245,6 +262,13 @@ class C09(Prop):
         a = Fraction(case["level"])
         for name in ("again", "perm"):
             other = io[name]
+            if name == "perm" and case["fkind"] == "numeric" and case["method"] not in ("quantile", "uniform"):
+                # numpy's data-driven bin-width rules (doane, scott, fd, ...) sum the data in its own precision: for a float32
+                # column the row order can change the edges numpy returns - a parameter of the model, not the library's doing
+                ser = feature_series(case)
+                if tc.given_edges(case["method"], ser) != tc.given_edges(case["method"], ser[case["perm"]]):
+                    self.numpy_order_dependent = getattr(self, "numpy_order_dependent", 0) + 1
+                    continue
             if other is None or len(other) != len(rows):
                 return f"{'repeated call' if name == 'again' else 'row permutation'} gives a different table shape"
             for k, (r1, r2) in enumerate(zip(rows, other)):
@@ -297,7 +321,7 @@ class C09(Prop):
         return None
 
     def extra_coverage(self):
-        return {"edge_ties_skipped": getattr(self, "edge_ties_skipped", 0)}
+        return {"numpy_bin_rule_depends_on_row_order_skipped": getattr(self, "numpy_order_dependent", 0), "edge_ties_skipped": getattr(self, "edge_ties_skipped", 0)}
 
     def nontrivial(self, case, io):
         return "rows" in io and sum(1 for r in io["rows"] if r["count"] > 1) >= 2
